@@ -87,10 +87,14 @@ impl WorkspaceIndex {
         self.files.insert(path.to_path_buf(), result);
     }
 
-    /// Re-analyze a file by reading it from disk.
+    /// Re-analyze a file by reading it from disk. A file that is not on disk,
+    /// such as a closed buffer that was never saved, leaves the index.
     pub fn update_from_disk(&mut self, path: &Path) {
-        if let Ok(content) = std::fs::read_to_string(path) {
-            self.update_from_content(path, &content);
+        match std::fs::read_to_string(path) {
+            Ok(content) => self.update_from_content(path, &content),
+            Err(_) => {
+                self.files.remove(path);
+            }
         }
     }
 
